@@ -28,7 +28,6 @@ Parts (every one a complete enumeration of a stated finite space, simplest first
   bin2sna  the same for --reg/--state/--poke (and -b/-p/-s) x {48K, --page, 128K file}
            x {.z80,.szx}, as a differential against the option-less run
 """
-import copy
 import itertools
 import os
 import zlib
@@ -1189,8 +1188,8 @@ def run(tier, seed):
         rule='complete enumerations: (rle) all strings over {{ED,00,01}} of length 1..{} x (v1 block, paged block) at method level; '
              '(embed) all such strings of length 1..{} at page start / page end / after 254-byte runs of each alphabet byte in real '
              'files (Z80 v3 by write_snapshot, Z80 v1 and v2 by snapmod, SZX); (edrun) ED runs of every length 1..600; (run) runs of '
-             '{} byte values x lengths {} bare / ED before / ED after / both; (image) 13 whole-memory fills x 3 machines x all file forms; (state) all deviations d<=2 from a base state over '
-             'register and hardware-state boundary sets x {{48K,128K,+2}} x {{z80,szx}}{}; (snapmod, bin2sna) every single option and '
+             '{} byte values x lengths {} bare / ED before / ED after / both; (image) 13 whole-memory fills x 3 machines x all file '
+             'forms; (state) all deviations d<=2 from a base state over register and hardware-state boundary sets x {{48K,128K,+2}} x {{z80,szx}}{}; (snapmod, bin2sna) every single option and '
              'every ordered pair from the option alphabet x input kinds. states = distinct case classes (string / run / set of '
              'deviating dimensions per machine / option-kind sequence per input kind); non-trivial = string contains ED, any run, '
              'any deviation, any option'.format(
@@ -1199,7 +1198,8 @@ def run(tier, seed):
                  if quick else ' plus every T-state value 0..frame-1 of both frame lengths'),
         exhaustive=True,
         bound='quick: strings <= 9 / embedded <= 6, 7 run byte values, T-state boundary set; reduced register alphabet in option '
-              'pairs; bin2sna option pairs on 3 of the 6 (input kind, format) combinations' if quick else 'thorough: strings <= 10 / embedded <= 7, all 255 run byte values, every T-state value, full option alphabet pairs',
+              'pairs; bin2sna option pairs on 3 of the 6 (input kind, format) combinations' if quick else
+              'thorough: strings <= 10 / embedded <= 7, all 255 run byte values, every T-state value, full option alphabet pairs',
         assumptions=[
             'reference decoders mc/refs/snapfmt.py (written from the Z80 and ZX-State format descriptions) are the independent reader',
             'register values are inside the register width, tstates inside 0..frame-1 (SZX stores T-states unreduced; out of domain)',
@@ -1212,7 +1212,11 @@ def run(tier, seed):
             'the relative order in which options of different kinds are applied is not documented: for a pair of options of different '
             'kinds whose effects do not commute either order is accepted (counted in guard pair_order_dependent); options of the same '
             'kind must apply in command-line order',
-            'seed rotates the base register vector, the RAM fill and the literal background bytes, never the enumerated space',
+            'option values: --reg values, addresses, sizes and poke values in decimal or 0x-hexadecimal as documented; --state '
+            'values in decimal only (the documentation does not promise 0x there and the tools reject it)',
+            'seed rotates the base register vector, the RAM fills and the literal background bytes and, in the quick tier only, which '
+            'machine carries the register x register pairs and which three (input kind, format) combinations carry the bin2sna '
+            'option pairs; it never selects cases inside an enumerated space',
         ],
         required_guards=REQUIRED_GUARDS,
         extra={'seed_slice': seed % 3},
